@@ -17,7 +17,7 @@ from .smt import (T, INT, BOOL, STR, IntV, BoolV, StrV, TRUE, FALSE, And, Or, No
                   Substr, At, Contains, PrefixOf, SuffixOf, Max, Min)
 from .vals import (Undecided, V, VInt, VBool, VStr, VNone, NONE, VVal, VSeq, VTuple,
                    VRef, VFunc, VPy, VBound, VExc, Raised, HList, HPyList, HDict,
-                   HSet, HInst, HObjList, parse_type, sort_of, wrap, T_INT, T_BOOL, T_STR,
+                   HSet, HInst, HObjList, HMap, parse_type, sort_of, wrap, T_INT, T_BOOL, T_STR,
                    T_NONE, T_VAL)
 from . import contracts as C
 
@@ -43,6 +43,8 @@ class State(object):
         self.ghost = {}         # ghost variables (loop indices, traces)
         self.nloc = [1000]
         self.depth = 0
+        self.globals = {}       # (module name, attribute) -> V : mutable process-global cells
+        self.events = []        # ghost log of calls to contracted / external functions
 
     def copy(self):
         s = State.__new__(State)
@@ -57,6 +59,8 @@ class State(object):
         s.ghost = dict(self.ghost)
         s.nloc = self.nloc
         s.depth = self.depth
+        s.globals = dict(self.globals)
+        s.events = list(self.events)
         return s
 
     def assume(self, t):
@@ -343,6 +347,11 @@ class Engine(object):
             vals = {}
             for f, fty in fields.items():
                 fty_p = parse_type(fty)
+                choice = self.union_choice.get('%s.%s' % (ty[1], f)) if fty_p[0] == 'union' else None
+                if fty_p[0] == 'union':
+                    if choice is None:
+                        raise Undecided('union-typed field %s.%s needs an alternative (entry_states)' % (ty[1], f))
+                    fty_p = fty_p[1][choice]
                 if fty_p[0] == 'opt':
                     # optional fields: represented by a pair (is-none flag, value)
                     vals[f] = VOptSym(self.ctx.fresh('%s_%s_isnone' % (base, f), BOOL),
@@ -350,6 +359,19 @@ class Engine(object):
                 else:
                     vals[f] = self.fresh(fty_p, '%s_%s' % (base, f), st)
             return st.alloc(HInst(ty[1], vals))
+        if k == 'map':
+            ks, vs = sort_of(ty[1]), sort_of(ty[2])
+            return st.alloc(HMap(self.ctx.fresh(base + '_has', '(Array %s Bool)' % ks),
+                                 self.ctx.fresh(base + '_val', '(Array %s %s)' % (ks, vs)), ty[2]))
+        if k == 'reclist':
+            from .executor import VRecList
+            n = self.ctx.fresh(base + '_len', INT)
+            st.assume(Ge(n, IntV(0)))
+            return VRecList(n, ty[1], self.ctx.fresh_name(base))
+        if k == 'const':
+            return VStr(StrV(ty[1]))
+        if k == 'opt':
+            return VOptSym(self.ctx.fresh(base + '_isnone', BOOL), self.fresh(ty[1], base, st))
         if k == 'dict':
             raise Undecided('fresh dict must be built by the contract (use record/initial state)')
         if k == 'set':
@@ -370,6 +392,8 @@ class Engine(object):
             if isinstance(o, HPyList):
                 if not o.items:
                     raise Undecided('element type of empty concrete list unknown')
+                items = [i.val if isinstance(i, VOptSym) and self.pure else i for i in o.items]
+                o = HPyList(items)
                 elem = o.items[0].ty
                 if elem[0] not in ('int', 'bool', 'str'):
                     raise Undecided('concrete list of %r as Seq' % (elem,))
@@ -474,6 +498,9 @@ class Engine(object):
                     return BoolV(x == y)
         if isinstance(a, (VStr,)) and isinstance(b, (VInt, VBool)) or isinstance(b, (VStr,)) and isinstance(a, (VInt, VBool)):
             return FALSE
+        for x, y in ((a, b), (b, a)):
+            if isinstance(x, VRef) and isinstance(st.heap.get(x.loc), HInst) and isinstance(y, (VStr, VInt, VBool)):
+                return FALSE        # an instance without __eq__ never equals a str/int
         try:
             sa, ea = self.seq_of(a, st)
             sb, eb = self.seq_of(b, st)
@@ -503,6 +530,11 @@ class Engine(object):
         if isinstance(a, VNone) or isinstance(b, VNone):
             return BoolV(isinstance(a, VNone) and isinstance(b, VNone))
         if isinstance(a, VRef) and isinstance(b, VRef):
+            oa, ob = st.heap.get(a.loc), st.heap.get(b.loc)
+            va, vb = getattr(oa, 'view', None), getattr(ob, 'view', None)
+            if va is not None and vb is not None:
+                # two read-only views of list elements: same object iff same list and same index
+                return Eq(va[1], vb[1]) if va[0] == vb[0] else FALSE
             return BoolV(a.loc == b.loc)
         if isinstance(a, VPy) and isinstance(b, VPy):
             return BoolV(a.obj is b.obj)
@@ -814,6 +846,10 @@ class Engine(object):
                     return Or(*[Eq(item.t, StrV(k)) for k in o.entries])
             if isinstance(o, HSet) and isinstance(item, VStr):
                 return smt.mk('select', [o.arr, item.t], BOOL)
+            if isinstance(o, HMap) and isinstance(item, VInt):
+                return smt.mk('select', [o.present, item.t], BOOL)
+            if isinstance(o, HObjList):
+                raise Undecided('membership in an anonymous object list', node)
             if isinstance(o, HList):
                 if isinstance(item, (VStr, VInt, VBool)):
                     return smt.mk('seq.contains', [o.seq, smt.Unit(item.t)], BOOL)
@@ -975,6 +1011,10 @@ class Engine(object):
                 return self._safe_result(inr, VExc(o.cls, {}, tag='collected'), IndexError, st, node)
             if isinstance(o, HDict):
                 return self.dict_get(base, o, idx, st, node)
+            if isinstance(o, HMap) and isinstance(idx, VInt):
+                has = smt.mk('select', [o.present, idx.t], BOOL)
+                val = wrap(smt.mk('select', [o.vals, idx.t], sort_of(o.vty)), o.vty)
+                return self._safe_result(has, val, KeyError, st, node)
             if isinstance(o, HInst):
                 return self.call_method_on_instance(base, o, '__getitem__', [idx], {}, st, node)
         if isinstance(base, VVal) and isinstance(idx, VStr):
@@ -1028,6 +1068,7 @@ class Engine(object):
         return [(value, st)]
 
     in_try = 0
+    union_choice = {}
 
     def dict_get(self, ref, o, key, st, node):
         if isinstance(key, VStr):
@@ -1110,6 +1151,11 @@ class Engine(object):
     def get_attr(self, v, name, st, node=None):
         if isinstance(v, VPy):
             obj = v.obj
+            import types as _types
+            if isinstance(obj, _types.ModuleType):
+                cell = st.globals.get((obj.__name__, name))
+                if cell is not None:
+                    return [(cell, st)]
             if not hasattr(obj, name):
                 return self._safe_result(FALSE, NONE, AttributeError, st, node)
             return [(self.lift(getattr(obj, name), st), st)]
